@@ -675,7 +675,10 @@ func c31Run(st *c31Stats, r *kit.Rand, mode RunMode, version uint64, prog []byte
 			st.HarnessErrs = append(st.HarnessErrs, fmt.Sprintf("panic inside the harness: %v at %s", pe.PanicValue, frame))
 		default:
 			key := "panic-error"
-			if fn, _, ok := strings.Cut(frame, "("); ok {
+			if fn, _, ok := strings.Cut(frame, " @ "); ok {
+				if i := strings.LastIndex(fn, "("); i > 0 {
+					fn = fn[:i] // drop the argument list
+				}
 				st.Counters["recovered_panic@"+fn[strings.LastIndex(fn, "/")+1:]]++
 			}
 			if cfg.trace {
